@@ -11,6 +11,7 @@ Alpha == <<
   Recv_(1, 255, 0, 17, P20),
   Recv_(1, 255, 3, 16, PEmpty), Recv_(1, 255, 3, 22, P1), Recv_(1, 255, 3, 32, PEmpty), Recv_(1, 255, 3, 14, PEmpty),
   Recv_(1, 255, 4, 5, PEmpty), Recv_(1, 255, 4, 6, PEmpty),
+  Sibling_(P150v), Sibling_(P220),                 \* another Gateway object in the process learns 1.5.0 / 2.2.0
   Cycle_
 >>
 \* second initial state: the gateway's own node restored from persistence, version not yet reported
